@@ -142,34 +142,30 @@ inductive Step where
   | bad (why : String)
   deriving Repr
 
-/-- local labels `1:`/`2:` of a multi-instruction line or of the fixed sequences (`1f`, `1b`) are
-    made unique per occurrence by the caller; here a line is classified. -/
+/-- a line is straight-line exactly when `lineDelta` knows its effect; otherwise it is a label, a
+    jump, `ret`, alloca's `sub %rdi, %rsp`, or something unknown -/
 def classifyIns (i : Ins) : Step :=
-  if jumpOps.contains i.op then
-    match jumpTarget i with
-    | some t => if i.op == "jmp" then .jump t else .cond t
-    | none => if i.op == "jmp" then .leave else .bad s!"conditional jump without a label: {i.render}"
-  else if i.op == "ret" then .leave
-  -- the explicit exception of C20: `alloca` lowers %rsp by a run-time amount after moving the
-  -- temporaries that are in flight; relative to them nothing changes
-  else if i == ⟨"sub", [.r "%rdi", .r "%rsp"]⟩ then .delta H.zero
-  else match insDelta i with
-    | some d => .delta d
-    | none => .bad s!"no effect known for: {i.render}"
+  match insDelta i with
+  | some d => .delta d
+  | none =>
+    if jumpOps.contains i.op then
+      match jumpTarget i with
+      | some t => if i.op == "jmp" then .jump t else .cond t
+      | none => if i.op == "jmp" then .leave else .bad s!"conditional jump without a label: {i.render}"
+    else if i.op == "ret" then .leave
+    -- the explicit exception of C20: `alloca` lowers %rsp by a run-time amount after moving the
+    -- temporaries that are in flight; relative to them nothing changes
+    else if i == ⟨"sub", [.r "%rdi", .r "%rsp"]⟩ then .delta H.zero
+    else .bad s!"no effect known for: {i.render}"
 
-def classify : Line → List Step
-  | .ins i => [classifyIns i]
-  | .insA i note => match lineDelta (.insA i note) with
-    | some d => [.delta d]
-    | none => [.bad s!"no effect known for annotated: {i.render}"]
-  | .multi is => match multiDelta is false with
-    | some d => [.delta d]
-    | none => [.bad "cast_table line with an effect after a jump"]
-  | .multiT _ is => match multiDelta is false with
-    | some d => [.delta d]
-    | none => [.bad "cast_table line with an effect after a jump"]
-  | .label l => [.label l]
-  | .raw _ => [.delta H.zero]
+def classify (l : Line) : List Step :=
+  match lineDelta l with
+  | some d => [.delta d]
+  | none =>
+    match l with
+    | .ins i => [classifyIns i]
+    | .label n => [.label n]
+    | _ => [.bad s!"no effect known for: {l.render}"]
 
 /-- numeric local labels (`1:` … `9:`): a reference `1f` means the next definition of `1`, `1b` the
     previous one.  `renameLocals` gives every definition a unique name `N#k` and rewrites the
@@ -269,10 +265,100 @@ def inferN : Nat → List Step → Labelling → Labelling
   | 0, _, acc => acc
   | n + 1, steps, acc => inferN n steps (infer steps (some H.zero) acc)
 
+/-- the control-flow skeleton of a piece of code -/
+def steps (ls : List Line) : List Step := renameLocals (ls.flatMap classify) []
+
 /-- check the body of one function (the lines between the prologue and `.L.return.<fn>:`) -/
 def checkBody (body : List Line) : Except String Unit :=
-  let steps := renameLocals (body.flatMap classify) []
-  let h := inferN 3 steps []
-  verify h steps (some H.zero)
+  let st := steps body
+  let h := inferN 3 st []
+  verify h st (some H.zero)
+
+/-! ## the relative form used in theorem statements -/
+
+/-- scan with a given labelling, heights relative to the start of the code; returns the height at
+    the end (`none`: the end is not reachable by falling through) -/
+def scanRel (h : Labelling) : List Step → Option H → Except String (Option H)
+  | [], cur => .ok cur
+  | .delta d :: r, cur => scanRel h r (cur.map (· + d))
+  | .cond l :: r, cur =>
+    match cur with
+    | none => scanRel h r none
+    | some c => if h.lookup l == some c then scanRel h r cur else .error s!"jump to {l} at a different height"
+  | .jump l :: r, cur =>
+    match cur with
+    | none => scanRel h r none
+    | some c => if h.lookup l == some c then scanRel h r none else .error s!"jump to {l} at a different height"
+  | .leave :: r, _ => scanRel h r none
+  | .label l :: r, cur =>
+    match h.lookup l with
+    | none => .error s!"label without a height: {l}"
+    | some hl =>
+      if cur == none || cur == some hl then scanRel h r (some hl)
+      else .error s!"fall-through into {l} at a different height"
+  | .bad why :: _, _ => .error why
+
+/-- `Balanced ls d`: there is one height per label such that every jump and every fall-through
+    arrives at its label's height, and control falls out of the end of `ls` at height `d`
+    (relative to the start).  For code without labels and jumps this is `delta ls = some d`. -/
+def Balanced (ls : List Line) (d : H) : Prop :=
+  ∃ h : Labelling, scanRel h (steps ls) (some H.zero) = .ok (some d)
+
+/-- like `Balanced`, for code that may also end in a jump (a statement that ends in `goto`,
+    `break`, `return` …): if control falls out of the end, then at height `d` -/
+def BalancedOrLeaves (ls : List Line) (d : H) : Prop :=
+  ∃ h : Labelling, ∃ e, scanRel h (steps ls) (some H.zero) = .ok e ∧ (e = none ∨ e = some d)
+
+theorem classify_of_lineDelta {l : Line} {d : H} (hl : lineDelta l = some d) : classify l = [.delta d] := by
+  simp [classify, hl]
+
+theorem flatMap_classify_of_delta : ∀ (ls : List Line) (d : H), delta ls = some d →
+    ∃ ds : List H, ls.flatMap classify = ds.map Step.delta ∧ ds.foldl (· + ·) H.zero = d
+  | [], d, h => by
+    simp only [delta, Option.some.injEq] at h
+    exact ⟨[], rfl, h⟩
+  | l :: r, d, h => by
+    simp only [delta] at h
+    cases hl : lineDelta l with
+    | none => simp [hl] at h
+    | some a =>
+      cases hr : delta r with
+      | none => simp [hl, hr] at h
+      | some b =>
+        simp only [hl, hr, Option.some.injEq] at h
+        obtain ⟨ds, e1, e2⟩ := flatMap_classify_of_delta r b hr
+        refine ⟨a :: ds, ?_, ?_⟩
+        · simp [List.flatMap_cons, classify_of_lineDelta hl, e1]
+        · subst h e2
+          have : ∀ (xs : List H) (x y : H), xs.foldl (· + ·) (x + y) = x + xs.foldl (· + ·) y := by
+            intro xs
+            induction xs with
+            | nil => intro x y; rfl
+            | cons z zs ih =>
+              intro x y
+              simp only [List.foldl_cons]
+              have e : x + y + z = x + (y + z) := by simp [H.add_def, Int.add_assoc]
+              rw [e, ih]
+          simp only [List.foldl_cons]
+          have e0 : H.zero + a = a + H.zero := by simp [H.add_def, H.zero]
+          rw [e0, this]
+
+theorem renameLocals_deltas (ds : List H) (seen : List (String × Nat)) :
+    renameLocals (ds.map Step.delta) seen = ds.map Step.delta := by
+  induction ds with
+  | nil => rfl
+  | cons d r ih => simp [renameLocals, ih]
+
+theorem scanRel_deltas (h : Labelling) (ds : List H) (c : H) :
+    scanRel h (ds.map Step.delta) (some c) = .ok (some (ds.foldl (· + ·) c)) := by
+  induction ds generalizing c with
+  | nil => rfl
+  | cons d r ih => simp [scanRel, ih]
+
+/-- straight-line code is balanced, with its `delta` -/
+theorem balanced_of_delta {ls : List Line} {d : H} (h : delta ls = some d) : Balanced ls d := by
+  obtain ⟨ds, e1, e2⟩ := flatMap_classify_of_delta ls d h
+  refine ⟨[], ?_⟩
+  simp only [steps, e1, renameLocals_deltas, scanRel_deltas, e2]
 
 end ChibiVerif.Effect
